@@ -36,6 +36,10 @@ CHECKS = {
          "Generated histories with deliberately refused requests interleaved; after each refusal the full observable state must equal the state before, and every later operation must match the model and (rawdb) a twin database that never saw the refused calls.",
          "Refused requests are the ones the property lists; retain_regions over a still-referenced region (a composite of several removals) is not generated. Lock/IO errors cannot be provoked through the API.",
          "stateful property testing with no-effect oracle (before/after snapshot + twin differential)", "DESIGN.md §4 C13"),
+ "C16": ("E3-vecmodel", "fault_enumeration",
+         "Commit/rollback histories under every retention setting with systematic single-file fault injection on the change directory: truncation of the newest record at every byte offset, every count field set to 2^32 / 2^63 / u64::MAX, deletion; older records deleted / halved / malformed before rollback_before. The directory listing is compared with a model after every commit.",
+         "Faults are single-file and confined to the change directory; in-range (plausible) corruptions of a length field cannot be detected without checksums and are not demanded.",
+         "property-based fault injection (enumerated truncation offsets and field values) with model oracle", "DESIGN.md §4 C16"),
 }
 WIP = "check not built yet in this session (work in progress, see DESIGN.md §4 for the planned generated-input check)"
 
